@@ -124,6 +124,11 @@ Proof.
   destruct C as [ [ -> | [ -> | -> ] ] [ -> | [ -> | [ -> | -> ] ] ] ]; reflexivity.
 Qed.
 
+Lemma len_ge6 : forall p a b (x : bytes), (len (le32 p ++ [a; b] ++ x) <? 6) = false.
+Proof.
+  intros p a b x. rewrite !len_app. change (len (le32 p)) with 4. change (len [a; b]) with 2. lia.
+Qed.
+
 Lemma sheet_metadata_enc : forall s ch, ls_legal s ch = true ->
   xls_sheet_metadata (boundsheet_body (ls_pos ch) (xls_vis_code (m_vis s) + 64 * ls_hi ch)
                                       (xls_kind_code (m_kind s)) (ls_wide ch) (units_of (m_name s)))
@@ -138,7 +143,7 @@ Proof.
   destruct (name_ok_parts (m_name s) Hname) as [Hsc Hfil].
   assert (Hleg : legal_short_string (ls_wide ch) (units_of (m_name s)) = true)
     by (apply short_legal; [assumption|lia|assumption]).
-  unfold xls_sheet_metadata, boundsheet_body.
+  unfold xls_sheet_metadata, boundsheet_body. rewrite len_ge6.
   rewrite read_u32_le32 by lia. cbn [obind].
   unfold le32 at 1 2. cbn [app nth_error of_option obind].
   rewrite land_hs by (destruct (m_vis s); cbn; lia).
